@@ -12,6 +12,7 @@ mod c07;
 mod c08;
 mod c09;
 mod c10;
+mod c12;
 mod c13;
 mod c14;
 mod c16;
@@ -25,7 +26,7 @@ use std::time::Instant;
 use util::*;
 
 fn props() -> Vec<PropDef> {
-    vec![c02::DEF, c03::DEF, c04::DEF, c05::DEF, c06::DEF, c07::DEF, c08::DEF, c09::DEF, c10::DEF, c13::DEF, c14::DEF, c16::DEF, c17::DEF, c18::DEF, c19::DEF, c20::DEF]
+    vec![c02::DEF, c03::DEF, c04::DEF, c05::DEF, c06::DEF, c07::DEF, c08::DEF, c09::DEF, c10::DEF, c12::DEF, c13::DEF, c14::DEF, c16::DEF, c17::DEF, c18::DEF, c19::DEF, c20::DEF]
 }
 
 fn arg(args: &[String], name: &str) -> Option<String> {
